@@ -94,6 +94,11 @@ Fixpoint ptrs_from (p : Z) (els : list (list Z)) : list Z :=
   match els with [] => [] | f :: r => p :: ptrs_from (p + zlen f) r end.
 Definition sum_len (els : list (list Z)) : Z := zlen (concat els).
 
+(* save() computes the adjacency (attribute adjacent_cell of the cell facets) of a volume mesh whose cells are all
+   tetrahedra; the exporter writes it when it exists *)
+Definition has_adjacency (m : mesh) : bool := forallb (len_is save_adjacency_arity) (mC m).
+Definition n_cell_facets (cells : list (list Z)) : Z := fold_right (fun c acc => geo_exp_cell_facets (zlen c) + acc) 0 cells.
+
 (* the chunks export_geogram_ascii writes, in order; the face corners of a prepared mesh are the concatenation
    of its faces *)
 Definition ti (z : Z) : tok := TInt z.
@@ -113,17 +118,16 @@ Definition geo_chunks (m : mesh) : list (list tok) :=
         ++ map (geo_user_attr (user_cont 3)) (aFC m))
   ++ (if isnil (mC m) then [] else
         [geo_atts geo_exp_atts_C (zlen (mC m))]
+        ++ (if forallb (len_is 4) (mC m) then [] else [geo_attr_head geo_exp_attr_cell_ptr ++ map ti (ptrs_from 0 (mC m))])
         ++ map (geo_user_attr (user_cont 4)) (aC m)
         ++ [geo_atts geo_exp_atts_CC (sum_len (mC m)); geo_attr_head geo_exp_attr_cc_vertex ++ map ti (concat (mC m))]
         ++ map (geo_user_attr (user_cont 5)) (aCC m)
-        ++ [geo_atts geo_exp_atts_CF (sum_len (mC m)); geo_attr_head geo_exp_attr_cf_adj ++ map ti (mAdj m)]
+        ++ [geo_atts geo_exp_atts_CF (n_cell_facets (mC m))]
+        ++ (if has_adjacency m then [geo_attr_head geo_exp_attr_cf_adj ++ map ti (mAdj m)] else [])
         ++ map (geo_user_attr (user_cont 6)) (aCF m)).
 Definition print_geo (m : mesh) : list tok := concat (geo_chunks m).
 
-(* mesh.save: a VolumeMesh computes its cell adjacency first, which only exists for tetrahedra (volume.py);
-   None = ValueError *)
-Definition save_geo (m : mesh) : option (list tok) :=
-  if forallb (len_is 4) (mC m) then Some (print_geo m) else None.
+Definition save_geo (m : mesh) : option (list tok) := Some (print_geo m).
 
 (* ------------------------------------------------------------------ import *)
 Definition is_chunk_header (t : tok) : bool :=
@@ -409,7 +413,8 @@ Definition vocab_geo (m : mesh) : raw :=
         (if isnil (mF m) then [] else map sparse_of (aFC m))
         (if isnil (mC m) then [] else map sparse_of (aC m))
         (if isnil (mC m) then [] else map sparse_of (aCC m))
-        (if isnil (mC m) then [] else adjacency_sattr geo_imp_opp_cell (mAdj m) :: map sparse_of (aCF m)).
+        (if isnil (mC m) then [] else
+           (if has_adjacency m then [adjacency_sattr geo_imp_opp_cell (mAdj m)] else []) ++ map sparse_of (aCF m)).
 
 (* reading a sparse attribute densely: attr[i] for i < n, flattened (default where no key) *)
 Definition dense_of (n : Z) (s : sattr) : list aval :=
